@@ -34,7 +34,7 @@ Definition PInt (z : Z) : pv := PV (VInt z).
 Definition PBool (b : bool) : pv := PV (VBool b).
 
 Inductive cmpop := CIs | CIsNot | CEq | CNe | CLt | CLe | CGt | CGe | CIn | CNotIn.
-Inductive bop := OAdd | OSub.
+Inductive bop := OAdd | OSub | OMul | OFloorDiv | OMod | ODiv.
 
 Inductive target :=
 | TName (x : string)
@@ -50,6 +50,8 @@ Inductive expr :=
 | XPrim (name : string) (args : list expr)                     (* a library function, by qualified name *)
 | XTuple (es : list expr)
 | XIndex (e i : expr)                                          (* e[i] *)
+| XCallMethod (e : expr) (m : string) (args : list expr)       (* e.m(args) on a value that is not mutated *)
+| XNeg (e : expr)                                              (* -e *)
 | XCompare (e : expr) (rest : list (cmpop * expr))             (* a op1 b op2 c ... *)
 | XNot (e : expr)
 | XBin (op : bop) (a b : expr)
@@ -67,6 +69,9 @@ Inductive stmt :=
 | SForUnpack (xs : list string) (it : expr) (body : list stmt) (* for a, b in it *)
 | SUnpack (ts : list target) (e : expr)                        (* a, b = e *)
 | SYield (e : expr)                                            (* generator functions: the items are collected *)
+| STry (body : list stmt) (kinds : list Z) (handler : list stmt)
+       (* try: body  except (kinds): handler   (kinds = []: any exception); state changes of a failed body are
+          discarded, which is exact for bodies that only compute a value *)
 | SReturn (e : option expr)
 | SExpr (e : expr)
 | SPass.
@@ -82,6 +87,12 @@ Arguments Ok {A}. Arguments Exc {A}. Arguments Stuck {A}.
 
 Definition IndexError : Z := 2.
 Definition NameError : Z := 3.
+Definition ZeroDivisionError : Z := 4.
+Definition ValueError : Z := 5.
+Definition OverflowError : Z := 6.
+Definition AttributeError : Z := 7.
+Definition KeyError : Z := 8.
+Definition InvalidOperation : Z := 9.     (* decimal.InvalidOperation *)
 
 Definition bind {A B} (r : res A) (f : A -> res B) : res B :=
   match r with Ok a => f a | Exc k => Exc k | Stuck => Stuck end.
@@ -168,11 +179,25 @@ Definition compare1 (op : cmpop) (a b : pv) : res bool :=
       end
   end.
 
-Definition binop1 (op : bop) (a b : pv) : res pv :=
+Definition bop_name (op : bop) : string :=
+  match op with OAdd => "add" | OSub => "sub" | OMul => "mul" | OFloorDiv => "floordiv" | OMod => "mod" | ODiv => "truediv" end.
+
+(* int op int (Python floor division and modulo are Coq's Z.div / Z.modulo: the remainder takes the divisor's
+   sign), list + list, tuple + tuple; everything else is delegated to the primitives oracle ("binop:<name>") *)
+Definition binop_builtin (op : bop) (a b : pv) : option (res pv) :=
   match a, b with
-  | PV (VInt x), PV (VInt y) => Ok (PInt (match op with OAdd => x + y | OSub => x - y end))
-  | PList x, PList y => match op with OAdd => Ok (PList (x ++ y)) | OSub => Exc TypeError end
-  | _, _ => Stuck
+  | PV (VInt x), PV (VInt y) =>
+      match op with
+      | OAdd => Some (Ok (PInt (x + y)))
+      | OSub => Some (Ok (PInt (x - y)))
+      | OMul => Some (Ok (PInt (x * y)))
+      | OFloorDiv => Some (if y =? 0 then Exc 4 else Ok (PInt (x / y)))
+      | OMod => Some (if y =? 0 then Exc 4 else Ok (PInt (x mod y)))
+      | ODiv => None
+      end
+  | PList x, PList y => match op with OAdd => Some (Ok (PList (x ++ y))) | _ => Some (Exc TypeError) end
+  | PTuple x, PTuple y => match op with OAdd => Some (Ok (PTuple (x ++ y))) | _ => Some (Exc TypeError) end
+  | _, _ => None
   end.
 
 (* Python slice bounds for l[lo:hi] (step 1) *)
@@ -212,6 +237,12 @@ Variable call_ref : nat -> list pv -> pv.
    methods below as "method:<name>" applied to (receiver :: arguments), returning PTuple [receiver'; result] *)
 Variable prim : string -> list pv -> res pv.
 
+Definition binop1 (op : bop) (a b : pv) : res pv :=
+  match binop_builtin op a b with
+  | Some r => r
+  | None => prim ("binop:" ++ bop_name op) [a; b]
+  end.
+
 (* receiver.m(args): new receiver and result *)
 Definition method_call (m : string) (recv : pv) (args : list pv) : res (pv * pv) :=
   match recv, args with
@@ -246,7 +277,7 @@ Fixpoint eval (s : st) (e : expr) {struct e} : res (st * pv) :=
       do (s1, ov) <- eval s o;
       match ov with
       | PSelf => do v <- read s1 (TSelf a); Ok (s1, v)
-      | _ => Stuck
+      | _ => do v <- prim ("attr:" ++ a) [ov]; Ok (s1, v)
       end
   | XCall f args star =>
       do (s1, fv) <- eval s f;
@@ -300,6 +331,20 @@ Fixpoint eval (s : st) (e : expr) {struct e} : res (st * pv) :=
       match v, iv with
       | PList l, PV (VInt z) | PTuple l, PV (VInt z) => do x <- index_at l z; Ok (s2, x)
       | _, _ => Stuck
+      end
+  | XCallMethod o m args =>
+      do (s1, ov) <- eval s o;
+      do (s2, vs) <- (fix go (s : st) (l : list expr) : res (st * list pv) :=
+                         match l with
+                         | [] => Ok (s, [])
+                         | a :: t => do (s1, v) <- eval s a; do (s2, vs) <- go s1 t; Ok (s2, v :: vs)
+                         end) s1 args;
+      do r <- prim ("call:" ++ m) (ov :: vs); Ok (s2, r)
+  | XNeg a =>
+      do (s1, v) <- eval s a;
+      match v with
+      | PV (VInt z) => Ok (s1, PInt (- z))
+      | _ => do r <- prim "neg" [v]; Ok (s1, r)
       end
   | XCompare a rest =>
       do (s1, av) <- eval s a;
@@ -437,6 +482,11 @@ Fixpoint exec (s : st) (c : stmt) {struct c} : res outcome :=
       | Some (PList acc) => Ok (Next (write s1 (TName yield_var) (PList (acc ++ [v]))))
       | None => Ok (Next (write s1 (TName yield_var) (PList [v])))
       | _ => Stuck
+      end
+  | STry body kinds handler =>
+      match block s body with
+      | Exc k => if match kinds with [] => true | _ => existsb (Z.eqb k) kinds end then block s handler else Exc k
+      | r => r
       end
   | SReturn None => Ok (Ret s PNone)
   | SReturn (Some e) => do (s1, v) <- eval s e; Ok (Ret s1 v)
